@@ -103,3 +103,18 @@ From KV Require Import Proofs.C09V2Exact.
 Example activation_example :
   exists c', process_presses ex_c 0 = Ok c' /\ (length (cv_active ex_c) < length (cv_active c'))%nat /\ cv_until_change c' = 0.
 Proof. eexists. split; [vm_compute; reflexivity|]. split; [cbn; lia|reflexivity]. Qed.
+
+(* virtual-key events (every row but 0), presses and releases alike, leave the chord queue at once and in their order; the physical
+   events stay, in their order *)
+Theorem virtual_key_events_leave_at_once : forall q dq q1 dq1,
+  drain_virtual q dq = Ok (q1, dq1) ->
+  q1 = filter (fun qd => fst (q_coord qd) =? 0) q /\ dq1 = dq ++ filter (fun qd => negb (fst (q_coord qd) =? 0)) q.
+Proof.
+  induction q as [|qd r IH]; intros dq q1 dq1 E; cbn [drain_virtual] in E.
+  - injection E as <- <-. cbn [filter]. rewrite app_nil_r. split; reflexivity.
+  - cbn [filter]. destruct (fst (q_coord qd) =? 0); cbn [negb].
+    + destruct (drain_virtual r dq) as [[keep d]| |] eqn:E1; cbn [bind] in E; try discriminate.
+      injection E as <- <-. destruct (IH _ _ _ E1) as [-> ->]. split; reflexivity.
+    + destruct (Nat.ltb (length dq) SMOL_Q_LEN); [|discriminate].
+      destruct (IH _ _ _ E) as [-> ->]. split; [reflexivity|]. rewrite <- app_assoc. reflexivity.
+Qed.
